@@ -172,3 +172,6 @@ def _l4_prop():
 
 
 C06L += direct("L4.rush_larsen_formula", {"x": "Atom", "dt": "Sym", "delta": "Real", "env": "Env"}, _l4_prop())
+
+C08L = direct("C08.same_definition_is_transitive", {"d": "Atom", "a": "Atom", "b": "Atom"},
+              "implies(same_def(d, a) and same_def(d, b), same_def(a, b))")
